@@ -227,6 +227,8 @@ func c18RunOp(prover *boc.MerkleProver, root *boc.Cell, op sx.V) (out sx.V) {
 			return sx.A("err")
 		}
 		return sx.Bytes(proof)
+	case "prog":
+		return c18RunProg(prover, op.List[1].List)
 	case "walk", "drop":
 		cursor := prover.Cursor()
 		for _, p := range c18PathsOf(op.List[1]) {
@@ -294,6 +296,8 @@ func c18MultiOracleKind(c *Ctx, kind string, in sx.V, src *c18Src, ops []sx.V, o
 			c18KeyOracle(c, kind, in, tag, src, op.List[1].Bits, out.List[i])
 		case "walk":
 			c18WalkOracle(c, kind, in, tag, src, c18PathsOf(op.List[1]), out.List[i])
+		case "prog":
+			c18WalkOracle(c, kind, in, tag, src, progPrunes(op.List[1].List), out.List[i])
 		}
 	}
 }
@@ -480,6 +484,8 @@ func genC18(c *Ctx) {
 	genC18Conc(c)
 	// 7. equal content at several positions: distinct cells / one shared cell
 	genC18Equal(c)
+	// 8. cursor programs: walks in every order an application may write them
+	genC18Prog(c)
 }
 
 // genC18Exotic: the source given to NewMerkleProver is the body of an earlier
